@@ -560,7 +560,7 @@ Definition add_vote (peer : N) (v : vote) (s : nstate) : nstate :=
   if (v_height v + 1 =? height s) && vtype_eqb (v_type v) Precommit then
     if negb (step_eqb (rstep s) SNewHeight) then s
     else match last_commit s with
-         | None => panic s                                   (* AddVote() on nil VoteSet *)
+         | None => s                                         (* no previous height: ignored (fix cfd1496) *)
          | Some (lr, vs) =>
            if negb (v_round v =? lr) || negb (v_ok v) then s
            else let '(vs', added) := vs_add (vals (v_height v)) vs (v_idx v) (v_bid v) in
